@@ -166,7 +166,7 @@ impl<S: Scheduler> Scheduler for Recorder<S> {
 }
 
 #[derive(Debug, Clone)]
-struct Level {
+pub struct Level {
     offered: Vec<usize>,
     idx: usize,
 }
